@@ -172,6 +172,10 @@ class Engine:
         self.fresh = itertools.count()
         # fids kept uninterpreted at call sites (their own bodies are analysed separately: C08 interp lemma)
         self.no_inline = {'utils::interp1d', 'utils::interp3d'}
+        # tolerance helpers stay uninterpreted predicates (their bodies are checked in C09-0)
+        for b in prog.bodies:
+            if b.kind == 'fn' and re.match(r'^(\w+::)*almost_(eq|le|ge|lt|gt)(_uom)?$', b.fid or ''):
+                self.no_inline.add(b.fid)
         self.stats = {'analysed': 0, 'summaries': 0}
 
     # ------------------------------------------------------------------ entry points
@@ -224,9 +228,18 @@ class Engine:
             a.run()
             if a.exit_state is not None:
                 v = a.load((('local', 0),), a.exit_state)
-                if v is not None and v[0] == 'ref':
-                    # promoted consts are references to an inner local
-                    v = ('constref', a.load(v[1], a.exit_state))
+
+                def close(x, depth=0):
+                    # references into the const body's own locals become self-contained constant references
+                    if x[0] == 'ref' and x[1][0][0] == 'local' and depth < 6:
+                        return ('constref', close(a.load(x[1], a.exit_state), depth + 1))
+                    if x[0] in ('tuple', 'array', 'some', 'ok'):
+                        return (x[0],) + tuple(close(y, depth + 1) if isinstance(y, tuple) and y and isinstance(y[0], str) else y for y in x[1:])
+                    if x[0] == 'agg':
+                        return ('agg', x[1], tuple((k, close(y, depth + 1)) for k, y in x[2]))
+                    return x
+                if v is not None:
+                    v = close(v)
         self.const_cache[name] = v
         return v
 
